@@ -219,10 +219,22 @@ func (w *W) Explore(cfg Config, b Bounds, body func(*Env)) Stats {
 		w.res.Capped = true
 	}
 	w.res.Skipped += st.Skipped
+	if st.Diverged > 0 {
+		w.Extra("nondeterministic_prefixes_not_explored", st.Diverged)
+		w.res.Capped = true
+	}
 	return st
 }
 
+var traceFile *os.File
+
 func (w *W) account(e *Env) {
+	if tf := os.Getenv("VERIF_TRACE"); tf != "" {
+		if traceFile == nil {
+			traceFile, _ = os.OpenFile(fmt.Sprintf("%s.%d", tf, os.Getpid()), os.O_CREATE|os.O_WRONLY|os.O_TRUNC, 0o644)
+		}
+		fmt.Fprintf(traceFile, "%s|%s|%s|%d|%q\n", w.name, w.caseTag, csv(e.Choices), len(e.Points), e.Obs)
+	}
 	if e.Verdict == "engine" {
 		w.res.EngineErr = e.EngineErr
 		w.emit("E", map[string]interface{}{"err": e.EngineErr, "choices": e.Choices, "scenario": w.name})
@@ -861,9 +873,12 @@ func Main(t *testing.T, c Check) {
 					}
 				}
 			}
-			if reproduced != reruns {
-				res.engineErrs = append(res.engineErrs, fmt.Sprintf("violation sig=%s scenario=%q choices=[%s] reproduced only %d/%d times", sig, v.Scenario, csv(v.Choices), reproduced, reruns))
+			if reproduced == 0 {
+				res.engineErrs = append(res.engineErrs, fmt.Sprintf("violation sig=%s scenario=%q choices=[%s] case=%q reproduced 0/%d times", sig, v.Scenario, csv(v.Choices), v.Case, reruns))
 				continue
+			}
+			if reproduced != reruns {
+				v.Detail = fmt.Sprintf("(reproduced %d of %d replays) ", reproduced, reruns) + v.Detail
 			}
 		}
 		if f, ok := open[sig]; ok {
